@@ -444,6 +444,21 @@ pub fn exec(lineno: usize, l: &str) -> String {
                 _ => panic!("bad size"),
             }
         },
+        // projection for C06: the rank records reported for a hand (value, name, class), not the reported cards
+        "hrank" => {
+            let v = nums();
+            let n = v[0] as usize;
+            fn hh<H: HandRanker + HandValidator>(h: &H, o: &mut String) {
+                push_opt(o, guard(|| hr_str(&h.hand_rank())));
+                push_opt(o, guard(|| hr_str(&h.hand_rank_validated())));
+            }
+            match n {
+                5 => hh(&Five::from(a5(&v[1..])), &mut o),
+                6 => hh(&Six::from(a6(&v[1..])), &mut o),
+                7 => hh(&Seven::from(a7(&v[1..])), &mut o),
+                _ => panic!("bad size"),
+            }
+        },
         // projection for C02 / C09: values only (no reported hand)
         "rankv" => {
             let v = nums();
